@@ -10,7 +10,7 @@ import itertools
 import json
 
 from vf import report
-from vf.explore import parallel
+from vf.explore import core, parallel
 from vf.models import jsonp
 from vf.vworld import base, peer
 
@@ -300,6 +300,116 @@ def run_cell(impl, via, cell, out):
         w.teardown()
 
 
+
+# ------------------------------------------------------------------ overlapping opens (schedule search)
+
+VERDICTS = {'accept': [], 'false': [('return', False)], 'text': [('return', 'no')], 'raise': [('raise', 'boom')]}
+
+
+class _PerClient(base.Behaviour):
+    """Connect handler whose duration and verdict depend on who is connecting (query parameter `who`)."""
+    def __init__(self, verdicts, slow):
+        self.verdicts = verdicts
+        self.slow = slow
+        self.sids = {}
+
+    def connect(self, sid, environ):
+        q = environ.get('QUERY_STRING', '')
+        who = q.split('who=')[1][0] if 'who=' in q else '?'
+        self.sids[who] = sid
+        return ([('sleep', 0.125)] if who in self.slow else []) + list(VERDICTS[self.verdicts[who]])
+
+
+class Overlap(core.Scenario):
+    """Two or three clients open sessions at the same time, with connect handlers that take time and give
+    different verdicts: each open is honoured on its own - the accepted ids (and only they) stay addressable."""
+    horizon = 0.5
+
+    def build(self):
+        p = self.params
+        self.beh = _PerClient(p['verdicts'], p['slow'])
+        w = self.world = peer.make_world(p['impl'], server_kwargs=dict(ping_interval=50, ping_timeout=50, async_handlers=False),
+                                         behaviour=self.beh)
+        self.opens = {}
+
+        def do_open(who):
+            def fire(sc):
+                if p['via'] == 'polling':
+                    sc.opens[who] = sc.world.http('GET', peer.BASEQ + '&who=' + who)
+                else:
+                    sc.opens[who] = sc.world.ws(peer.WSQ + '&who=' + who)
+            return core.Action('open-' + who, fire)
+        self.scripts = [[do_open(who)] for who in sorted(p['verdicts'])]
+
+    def finish(self):
+        w = self.world
+        p = self.params
+        w.run_until(self.horizon)
+        trig = 'overlapping_opens'
+        acc, rej = {}, {}
+        self._obs = {}
+        for who, v in sorted(p['verdicts'].items()):
+            r = self.opens.get(who)
+            sid = self.beh.sids.get(who)
+            if r is None or sid is None:
+                self.flag('open_unanswered', 'open of client %s: no connect event / no request' % who, trigger=trig)
+                continue
+            if p['via'] == 'polling':
+                told = peer.sid_of(r) if r.done and r.status == 200 else None
+                self._obs[who] = (r.status, told == sid)
+                if v == 'accept':
+                    if told != sid:
+                        self.flag('open_packet_wrong', 'client %s (accepted, handler saw sid ..%s) was answered status %r sid %r'
+                                  % (who, sid[-4:], r.status, told), trigger=trig)
+                    acc[who] = sid
+                else:
+                    if not r.done or r.status != 401:
+                        self.flag('rejected_open_not_401', 'client %s (verdict %s) was answered %r' % (who, v, r.status), trigger=trig)
+                    rej[who] = sid
+            else:
+                self._obs[who] = (r.accepted, r.server_closed)
+                (acc if v == 'accept' else rej)[who] = sid
+        live = set(w.live_sids())
+        self._obs['live'] = sorted(k for k, s_ in list(acc.items()) + list(rej.items()) if s_ in live)
+        for who, sid in sorted(rej.items()):
+            if sid in w.server.sockets:
+                self.flag('rejected_session_kept', 'the id of rejected client %s is still in the session table' % who, trigger=trig)
+            g = w.http('GET', peer.BASEQ + '&sid=' + sid)
+            w.run()
+            if not g.done or g.status != 400:
+                self.flag('rejected_sid_addressable', 'GET with the id of rejected client %s answered %r' % (who, g.status), trigger=trig)
+                w.run_until(w.now + 0.01)
+        for who, sid in sorted(acc.items()):
+            if sid not in live:
+                self.flag('accepted_session_lost', 'accepted client %s: its session is not in the table (live: %d sessions)'
+                          % (who, len(live)), trigger=trig)
+                continue
+            if p['via'] == 'polling':
+                w.call('send', sid, 'for-' + who)
+                w.run()
+                g = peer.poll(w, sid)
+                w.run_until(w.now + 0.125)
+                got = [d for ty, d in peer.decode_body(g.text())] if g.done and g.status == 200 else None
+                if not got or 'for-' + who not in got:
+                    self.flag('accepted_session_unusable', 'accepted client %s polled %r after send()' % (who, got), trigger=trig)
+
+    def observation(self):
+        return self._obs
+
+
+def overlap_params():
+    ps = []
+    for impl in ('sync', 'async'):
+        for via in ('polling', 'websocket'):
+            for va, vb in itertools.product(sorted(VERDICTS), repeat=2):
+                if va == vb == 'accept':
+                    continue
+                for slow in ('A', 'B', 'AB'):
+                    ps.append({'impl': impl, 'via': via, 'verdicts': {'A': va, 'B': vb}, 'slow': slow})
+            for vs in (('false', 'accept', 'accept'), ('accept', 'false', 'raise'), ('text', 'false', 'accept')):
+                ps.append({'impl': impl, 'via': via, 'verdicts': dict(zip('ABC', vs)), 'slow': 'AC'})
+    return ps
+
 def _work(chunk):
     out = []
     kinds = {}
@@ -329,17 +439,29 @@ def run(ctx):
             rep.add(report.Violation.from_json(v))
         for a, b in ks.items():
             kinds[a] = kinds.get(a, 0) + b
+    ops = overlap_params()
+    st, viols, _, gate = core.run_search(Overlap, ops, 1 if ctx.quick else 2, ctx.workers, ctx.seed)
+    for v in viols:
+        pr = v['params']
+        rep.add(report.Violation(
+            dict({'impl': pr['impl'], 'kind': v['kind']}, **v['sig']),
+            '[%s via=%s verdicts=%r slow=%s] %s (choices=%s)' % (pr['impl'], pr['via'], pr['verdicts'], pr['slow'], v['text'],
+                                                                  ''.join(map(str, v['choices']))),
+            {'harness': 'overlap', 'params': pr, 'choices': v['choices']}, weight=(v['dev'] + 1, len(v['choices']))))
+    n += st.executions
     rep.coverage = {
         'evaluations': n,
         'distinct_nontrivial': n - kinds.get('skipped', 0),
         'rule': 'configuration cells: timing %dx%dx%d, upgrades 2x4x2, cookie 7x2, connect outcome 9x2 as '
                 'sub-products with the other dimensions at default%s; each on Server and AsyncServer, polling and '
-                'WebSocket opens. Non-trivial = cells whose opening transport is allowed (others are skipped).'
+                'WebSocket opens; plus overlapping opens (two or three clients opening at once, connect handlers that take 1/8 s for some of them, verdicts {accept, False, text, raise} per client: every interleaving and a bounded number of deviations - each open is honoured on its own, rejected ids are unaddressable and accepted ones usable). Non-trivial = cells whose opening transport is allowed (others are skipped).'
                 % (len(INTERVALS), len(TIMEOUTS), len(BUFS),
                    '' if ctx.quick else '; plus the full product on a reduced grid (3x2 timing, 2x4x2 upgrades, 4 cookies, 9 outcomes, jsonp)'),
         'samples': [cs[0], cs[len(cs) // 2], cs[-1]],
         'exhaustive': True,
         'cells': len(cs), 'outcomes': kinds,
+        'overlapping_opens': {'scenarios': len(ops), 'executions': st.executions, 'distinct_outcomes': len(st.outcomes),
+                              'deviation_bound': 1 if ctx.quick else 2, 'caps_hit': st.caps, 'determinism_gate': gate},
     }
     rep.assumptions = [
         'a False cookie attribute may be rendered as omitted or as attr=False',
@@ -351,6 +473,13 @@ def run(ctx):
 
 def replay(ctx, payload):
     r = payload['replay']
+    if r.get('harness') == 'overlap':
+        ex = core.execute(Overlap, r['params'], r['choices'], want_labels=True)
+        for lab in ex.labels:
+            print('  ', lab)
+        for v in ex.violations:
+            print('REPLAY VIOLATION:', v)
+        return 1 if ex.violations else 0
     out = []
     k = run_cell(r['impl'], r['via'], r['cell'], out)
     print('outcome:', k)
